@@ -333,6 +333,21 @@ impl C20 {
       out.fail(env, viol("holiday", "name_index_out_of_range", case, &k, desc.clone(), format!("< {}", LEGAL_HOLIDAY_NAMES.len()), r.name.to_string()));
       return;
     }
+    // three out of four cases: an unrelated look-up comes first on this thread - a date after the last record, a date before
+    // the first record, a date between two records - (a record is returned for its date whatever was looked up before)
+    {
+      let (first, last) = (&recs[0], &recs[recs.len() - 1]);
+      let pre: Option<(i64, i64, i64)> = match (p as i64 + n).rem_euclid(4) {
+        1 => c.index(last.y, last.m, last.d).map(|i| c.ymd((i + 1 + (p * 37) % 2000).min(NDAYS - 1))),
+        2 => c.index(first.y, first.m, first.d).map(|i| c.ymd(i - 1 - (p * 53) % 3000)),
+        3 => Some((r.y, ((r.m + 4) % 12) + 1, 17)),
+        _ => None,
+      };
+      if let Some((py, pm, pd)) = pre {
+        out.class("holiday_lookup_after_an_unrelated_lookup");
+        let _ = guard(|| LegalHoliday::from_ymd(py as isize, pm as usize, pd as usize).map(|h| h.to_string()));
+      }
+    }
     let h = match guard(|| LegalHoliday::from_ymd(r.y as isize, r.m as usize, r.d as usize)) {
       Ok(Some(h)) => h,
       Ok(None) => {
